@@ -1,5 +1,5 @@
 (* C04: the statements.  This file contains nothing but the property theorems. *)
-From Maddy Require Import Lib.Base Pipeline.Route Pipeline.Spec Pipeline.Lemmas.
+From Maddy Require Import Lib.Base Pipeline.Route Pipeline.Spec Pipeline.Lemmas Pipeline.SpecSel.
 Local Open Scope N_scope.
 
 (* First declaration wins, for every configuration: the destination table of a parsed source
@@ -35,6 +35,39 @@ Theorem C04_precedence :
             (alookup str_eqb dom rper = Some b \/ (alookup str_eqb dom rper = None /\ b = rd)))))).
 Proof. exact select_rcpt_cases. Qed.
 Print Assumptions C04_precedence.
+
+(* Model = documented rules, scope by scope: for every configuration the parser accepts, the block
+   a scope's tables select for a key is the block the documented precedence picks on the directives
+   as written (Spec.pick_block: the first *_in directive whose table has the key, else the first
+   directive declaring the full key, else the first one declaring its domain, else the default
+   block - the explicit one, or the handling directives written directly in the scope), and the
+   refusals coincide.  [wf_nodes]: a directive written without a block has no children; every
+   generated case is checked for it (tag bit 128 of Pipeline/Corr.v). *)
+Theorem C04_selection_is_documented_precedence_destination :
+  forall flk dflk valid_rule split_dom tbl f nodes s to clean,
+    wf_nodes nodes ->
+    parse_src flk dflk valid_rule (S f) nodes = Ok s ->
+    flk to = Some clean ->
+    match pick_block flk dflk valid_rule split_dom tbl (is_d DDestIn) (is_d DDest) (is_d DDefaultDest) handling_src nodes clean false with
+    | PFail r => select_rcpt flk split_dom tbl s to = SFail r
+    | PNodes blk => exists b, parse_rcpt flk dflk valid_rule f blk = Ok b /\
+                              select_rcpt flk split_dom tbl s to = SBlock b
+    end.
+Proof. exact select_rcpt_eq_spec. Qed.
+Print Assumptions C04_selection_is_documented_precedence_destination.
+
+Theorem C04_selection_is_documented_precedence_source :
+  forall flk dflk valid_rule split_dom tbl f nodes p from clean,
+    wf_nodes nodes ->
+    parse_root flk dflk valid_rule (S f) nodes = Ok p ->
+    (match from with [] => Some [] | _ => flk from end) = Some clean ->
+    match pick_block flk dflk valid_rule split_dom tbl (is_d DSourceIn) (is_d DSource) (is_d DDefaultSource) handling_root nodes clean true with
+    | PFail r => select_src flk split_dom tbl p from = SFail r
+    | PNodes blk => exists s, parse_src flk dflk valid_rule f blk = Ok s /\
+                              select_src flk split_dom tbl p from = SBlock s
+    end.
+Proof. exact select_src_eq_spec. Qed.
+Print Assumptions C04_selection_is_documented_precedence_source.
 
 (* Matching sees addresses and rules only through their lookup keys: two spellings with the
    same key select the same block, and two rule lists with the same normal forms declare the
